@@ -110,8 +110,9 @@ def oracle(ctx):
                                     out.append(A._flatten_contributions(pc, AnonymizationContext(U64(case["bucket_seed"]), ap)))
                                 return out
                             pb, pr = per_col(base), per_col(raised)
-                            same_cols = all(a is not None and b is not None and a.flattened_count == b.flattened_count and a.noise == b.noise
-                                            and a.noise_sd == b.noise_sd for a, b in zip(pb, pr))
+                            close = lambda x, y: abs(x - y) <= 1e-9 * max(1.0, abs(x), abs(y))
+                            same_cols = all(a is not None and b is not None and close(a.flattened_count, b.flattened_count) and close(a.noise, b.noise)
+                                            and close(a.noise_sd, b.noise_sd) for a, b in zip(pb, pr))
                             fl = sorted((p.flattening for p in pr), reverse=True)
                             near_tie = abs(fl[0] - fl[1]) <= 1e-9 * max(1.0, abs(fl[0])) and fl[0] != fl[1]
                             if same_cols and near_tie:
